@@ -369,6 +369,26 @@ def stage_b(rep, sc, tier, seed, replay=None):
                              rule="(b) seeded directed-switch / suspend-resume / join scenarios replayed through the scheduler LTS",
                              proof_log=proof_b["log"], prop_file=",".join(B_FILES))
     cov = {("b_" + k): v for k, v in cov.items()}
+    if not rep.violations and not replay:
+        # (c) blocking primitives whose waiters poll or sleep (wait lists, abti_waitlist.h): a waiter that changes
+        # streams while it waits must carry on with its own context.  Timed condition waits with the secondary streams
+        # sharing one pool, judged by the C05 LTS (Conc/CondMutex.v) and its monitors.
+        from props import c05
+
+        def gen_c(rng, t):
+            n = 10 if t == "quick" else 150
+            out = []
+            for _ in range(n):
+                sc_ = c05.gen_race(rng)
+                if "SHARED 1" not in sc_:
+                    sc_ = sc_.replace("WATCHDOG 10", "SHARED 1\nWATCHDOG 10", 1)
+                out.append(sc_)
+            return out, {"scenarios": n, "families": ["c05.gen_race+SHARED"]}
+        covc = hist.history_stage(rep, True, sc, lib, ID, "c05", "h_c05.c", gen_c, tier, seed,
+                                  rule="(c) timed condition waits on streams that share a pool, replayed through the C05 LTS",
+                                  sweep_kinds=(3,), sweep_n=10 if tier == "quick" else 60)
+        cov["c_evaluations"] = covc.get("evaluations", 0)
+        cov["c_events_replayed"] = covc.get("events_replayed", 0)
     return {"cov": cov, "ok": proof_b["ok"], "proof": proof_b}
 
 
@@ -403,8 +423,8 @@ def run(tier, seed, replay):
 
 
 pre_setup = setup_regenerate
-COQ_TARGETS = TARGETS_A + B_TARGETS
-DRIVERS = ["sched"]
+COQ_TARGETS = TARGETS_A + B_TARGETS + ["Extract_C05.vo"]   # stage (c) replays through the C05 LTS
+DRIVERS = ["sched", "c05"]
 MANIFEST = {
     "text": MANIFEST_A["text"] + " (b) one stream at a time, on the scheduler LTS (Conc/Sched.v): a unit has exactly one structural "
             "place and RUNNING is stored only by a hand-over from Checked/Popped/Created/Blocked/Handoff (C11_run_needs_handover, "
